@@ -95,7 +95,22 @@ def _current_root(run, prog, classes):
                 if kept is None:
                     continue
                 n += 1
-                if any(t[0] == "attr" and len(t) > 2 and t[2] == "_root" for t in ir.subterms(kept)):
+                def holds_root(t, depth=0):
+                    """the node itself, or a display / partial whose parts hold it (not a value computed from it)"""
+                    if not isinstance(t, tuple) or not t or depth > 4:
+                        return False
+                    if t[0] == "attr" and len(t) > 2 and t[2] == "_root":
+                        return True
+                    if t[0] == "tuple":
+                        return any(holds_root(x, depth + 1) for x in t[1])
+                    if t[0] == "partial":
+                        return any(holds_root(x, depth + 1) for x in t[2]) or any(holds_root(v, depth + 1) for _, v in t[3])
+                    if t[0] == "new" and t[2] in ("list", "tuple", "set", "dict"):
+                        return any(holds_root(x[-1] if x and x[0] in ("kv", "kw") else x, depth + 1) for x in t[3] if isinstance(x, tuple))
+                    if t[0] == "gate":
+                        return holds_root(t[2], depth + 1) or holds_root(t[3], depth + 1)
+                    return False
+                if holds_root(kept):
                     fq = f"{K.name}.{name}"
                     run.fail("ROOT", f"{fq}:kept-root", f"{s.path}:{ev.line}", fq, run.stmt_text(s.path, ev.line),
                              f"{fq} keeps a tree's `_root` node in the object's state ({ir.show_nl(kept)[:100]}): river rebinds "
@@ -526,6 +541,26 @@ def _tokens(run, prog, ts):
 
 def _imputer(run, prog, ts, ti):
     _model_classes(run, prog, ti)
+    # the storage mode is what the caller asked for: it must not be derived from the truth value of the storage object
+    # (TreeStorage defines __len__: a storage that has not seen data yet is false)
+    init = prog.summarise(ti, "__init__")
+    held = {t for f, t in init.fields.items() if t[0] == "param"}
+    for f, t in init.fields.items():
+        if t in held:
+            continue
+        tested = []
+        for x in ir.subterms(t):
+            ops = x[1] if x[0] in ("and", "or") else ((x[1],) if x[0] in ("not", "gate") else
+                                                      (x[2] if x[0] == "fn" and x[1] == "bool" else ()))
+            tested += [o for o in ops if o in held and o != ("param", f)]
+        objects = [o for o in tested if any(o == init.fields.get(g) and any(
+            isinstance(e, ir.Call) and e.callee.startswith(f"self.{g}") for e, _ in walk(prog.summarise(ti, "impute").events))
+            for g in init.fields)]
+        run.check(not objects, "IMPUTE", f"mode-flag.{f}", f"{init.path}:{init.fn.lineno}", "TreeImputer.__init__",
+                  f"self.{f} = {ir.show_nl(t)[:80]}",
+                  f"self.{f} depends on the truth value of the object passed as `{objects[0][1] if objects else ''}`: a storage that "
+                  f"holds nothing yet is false (TreeStorage.__len__), so an imputer built before the stream starts is silently "
+                  f"switched to another mode", f"self.{f} does not test a collaborator object for truth")
     fr = c06.FilterRun(run, {"MERGE", "KEYS", "COUNT", "NOMUT"}, {"MERGE": "IMPUTE", "KEYS": "IMPUTE", "COUNT": "IMPUTE", "NOMUT": "IMPUTE"})
     c06._imputer(fr, prog, ti)
     s = prog.summarise(ti, "impute")
